@@ -67,7 +67,10 @@ def check_text(ctx, T, label, case, canonical, emitted_ast=None):
   ctx.case(key=T, nontrivial=nt, sample=(label + ":\n" + T[:600]) if nt else
            None, classes=["%s:%s" % (label, f) for f in features(T)] +
            [label + ":stubs"])
-  ctx.check(P == T, "print-parse-not-fixed-point",
+  # root-cause bucket: a functional-form TypedDict (emitted for keys that are
+  # not identifiers) is re-read as alias + synthetic class
+  fsfx = ":functional-TypedDict" if " = TypedDict('" in T else ""
+  ctx.check(P == T, "print-parse-not-fixed-point" + fsfx,
             "%s: Print(parse(T)) != T\n--- T\n%s\n--- Print(parse(T))\n%s" %
             (label, T[:1200], P[:1200]), case)
   try:
@@ -75,7 +78,7 @@ def check_text(ctx, T, label, case, canonical, emitted_ast=None):
   except Exception as e:  # pylint: disable=broad-except
     raise Violation("reprinted-stub-does-not-parse", "%s: %s" % (label, e),
                     case)
-  ctx.check(pytd_utils.ASTeq(ast, ast2), "reparse-changes-declarations",
+  ctx.check(pytd_utils.ASTeq(ast, ast2), "reparse-changes-declarations" + fsfx,
             "%s: parse(Print(parse(T))) != parse(T)" % label, case)
   if canonical:
     try:
@@ -94,7 +97,7 @@ def check_text(ctx, T, label, case, canonical, emitted_ast=None):
     except Exception as e:  # pylint: disable=broad-except
       raise Violation("canonical_pyi-output-not-readable", "%s: %r" % (label, e),
                       case)
-    ctx.check(C2 == C, "canonical_pyi-not-idempotent",
+    ctx.check(C2 == C, "canonical_pyi-not-idempotent" + fsfx,
               "%s: canonical_pyi(canonical_pyi(T)) != canonical_pyi(T)" % label,
               case)
   if emitted_ast is not None:
@@ -105,7 +108,7 @@ def check_text(ctx, T, label, case, canonical, emitted_ast=None):
     got = ast.Visit(visitors.ClassTypeToNamedType())
     P2 = pytd_utils.Print(got)
     PW = pytd_utils.Print(want)
-    ctx.check(P2 == PW, "reread-declarations-differ-from-emitted",
+    ctx.check(P2 == PW, "reread-declarations-differ-from-emitted" + fsfx,
               "%s: Print(reread) != Print(emitted)" % label, case)
 
 
@@ -149,3 +152,22 @@ def replay(ctx, case):
   else:
     from props import progs_c05
     progs_c05.replay(ctx, case, check_text)
+
+
+def confirm_known(entry):
+  """All signatures the recorded program produces (collected, not raised)."""
+  from vlib.run import Ctx
+  from props import progs_c05
+  c = Ctx(ID, "quick", 0, 0, 1, [])
+  sigs = set()
+
+  def collect(ok, signature, detail, case):
+    if not ok:
+      sigs.add(signature)
+
+  c.check = collect
+  try:
+    progs_c05.replay(c, entry["input"], check_text)
+  except Violation as v:
+    sigs.add(v.signature)
+  return entry["signature"] in sigs
